@@ -45,9 +45,13 @@ type c14 struct {
 	// attrDir marks named attribute directories and what was created
 	// below them. Unless W7_EXOTIC=attrdir-links, leaves are not moved or
 	// linked across the border of such a hierarchy (see meta.json).
-	attrDir    map[virtual.PrepopulatedDirectory]bool
-	exotic     bool
-	exoticLink bool
+	attrDir map[virtual.PrepopulatedDirectory]bool
+	// attrOwner: the leaf whose named attribute hierarchy a directory
+	// belongs to (only for attribute directories opened through a leaf).
+	attrOwner       map[virtual.PrepopulatedDirectory]virtual.Leaf
+	ownAttrDirCycle bool // some leaf was hard-linked into its own attribute hierarchy
+	exotic          bool
+	exoticLink      bool
 
 	stopping  bool
 	overlap   bool
@@ -131,7 +135,11 @@ func runC14(r *simrun.Run) {
 		if idle {
 			rule, what = "C14/deadlock", "no caller can make progress: every unfinished caller waits for a mutex that is held"
 		}
-		e.k.Violate(rule, fmt.Sprintf("%s; calls in progress: %s; lock-waiters=%v blocked=%v parked=%v held=%v", what, w.inProgress(), lw, bl, sp, e.k.HeldLocks()))
+		history := ""
+		if w.ownAttrDirCycle {
+			history = " [history: a leaf was hard-linked into its own named attribute directory]"
+		}
+		e.k.Violate(rule, fmt.Sprintf("%s; calls in progress: %s; lock-waiters=%v blocked=%v parked=%v held=%v%s", what, w.inProgress(), lw, bl, sp, e.k.HeldLocks(), history))
 		return
 	}
 	if held := e.k.HeldLocks(); len(held) > 0 {
@@ -245,6 +253,9 @@ func (w *c14) register(d virtual.Directory, parent virtual.PrepopulatedDirectory
 		}
 		if w.attrDir[parent] {
 			w.attrDir[pd] = true
+			if o, ok := w.attrOwner[parent]; ok {
+				w.attrOwner[pd] = o
+			}
 		}
 	}
 	for _, x := range w.dirs {
@@ -619,6 +630,12 @@ func (c *caller) call() {
 		var out virtual.Attributes
 		_, st := d.VirtualLink(ctx, comp(name), l, mask, &out)
 		c.end("VirtualLink", stName(st))
+		if st == virtual.StatusOK && w.attrOwner[d] == l && l != nil {
+			// The leaf now lives inside the attribute directory it owns:
+			// the history of the second recorded finding.
+			w.ownAttrDirCycle = true
+			w.k.Probe("c14_leaf_linked_into_its_own_named_attribute_directory")
+		}
 	case 12:
 		overwrite := t.Bool(1, 2)
 		spec := c.newSpec(0)
@@ -731,6 +748,12 @@ func (c *caller) call() {
 			c.end("VirtualOpenNamedAttributes(leaf)", stName(st))
 			if st == virtual.StatusOK {
 				w.registerAttrDir(ad)
+				if pd, ok := ad.(virtual.PrepopulatedDirectory); ok && pd != nil {
+					if w.attrOwner == nil {
+						w.attrOwner = map[virtual.PrepopulatedDirectory]virtual.Leaf{}
+					}
+					w.attrOwner[pd] = l
+				}
 			}
 		}
 	}
